@@ -234,10 +234,28 @@ func c18(c *core.Ctx, r *core.Report) {
 				}
 			}
 		}
+		for _, fn := range c.AllFuncs {
+			if core.RelPkg(fn) != "internal/raterun" {
+				continue
+			}
+			for _, call := range an.AllCalls(fn) {
+				if isTimeMethod(an.Callee(call), "Ticker", "Reset") {
+					r.Violation(core.FuncName(fn)+"#ticker-reset", an.Pos(c, call), "the schedule switch re-arms the existing ticker with Reset: a tick of the previous schedule that is already pending survives the switch and fires the function at once with the new schedule's frequency (not a tick of the active schedule); stop the old ticker and create a new one")
+				}
+			}
+		}
 		if startFn == nil {
 			r.Undecided("anchor:selector", "-", "no function of raterun creates a ticker with a non-constant period")
 			return
 		}
+		// the previous ticker is stopped before it is replaced
+		stopped := false
+		for _, call := range an.AllCalls(startFn) {
+			if isTimeMethod(an.Callee(call), "Ticker", "Stop") && an.Dominates(call, tick) {
+				stopped = true
+			}
+		}
+		r.Check(stopped, core.FuncName(startFn)+"#old-ticker-stopped", an.Pos(c, tick), "the previous ticker is stopped before the new one is created", "the previous schedule's ticker is not stopped when the schedule changes: it keeps running (leak) although its channel is no longer read")
 		key := core.FuncName(startFn) + "#NewTicker"
 		d := an.D().Of(tick.Common().Args[0])
 		// accepted: <recv>.list[<idx>].Frequency where idx is the int parameter, or the current-index field stored from it before
